@@ -8,6 +8,20 @@ cases
   pt   seq c na mg c2 na2 mg2   four calls: seq, UPPER(seq), lower(seq) at (c,na,mg); seq at (c2,na2,mg2)
   grid seq clist nalist mglist  the whole product of the three (ascending) lists
   mt   seq                      MeltingTemp / SantaLucia at the defaults / MarmurDoty
+
+Monotonicity on binary64 (what the judge demands of the real float64 results).  STRICT increase of Tm
+in each concentration is a fact about the formula over the reals (Props/C19: tm_mono_oligo/na/mg).  In
+binary64 two conditions a few ulp apart give the same Tm (ties), so for every pair of in-range
+conditions P ≤ P' (coordinate-wise, P ≠ P') of the same oligo (length ≥ 2) the judge demands
+  * WEAK monotonicity always:            Tm(P) ≤ Tm(P')   (a decrease is a failure at any separation);
+  * STRICT increase above the resolution: Tm(P) < Tm(P') whenever sep(P,P') ≥ `resolution` = 1e-9, where
+      sep = max( (C'-C)/C , (S'-S)/S ),  S = Na + 140 Mg  (the two arguments of the logarithms).
+Why 1e-9 is defensible: a relative change ρ of a log argument moves the denominator D = dS + R ln(C/f) by
+R·ρ ≈ 2ρ (oligo) resp. 0.368 (N-1) ρ (salt) and Tm by (Tm+273.15)·ΔD/|D| ≥ ~0.1 ρ K over the whole domain
+(worst case: N = 200 on the oligo axis, |D| ≈ 5600, T ≈ 350 K); at ρ = 1e-9 that is ≥ 1e-10 K, against an
+accumulated rounding error of a few ulp of D (≤ 1e-12) and of Tm (≤ 6e-14) — two orders of magnitude of
+margin.  Observed: ties end near ρ ≈ 1e-10 (reviewer, 266k pairs); every run generates close pairs
+from 1 ulp to 5 % on all three axes and a tie at sep ≥ 1e-9 is reported as a FAIL.
 -/
 namespace PolyVerif.Driver.C19
 open PolyVerif PolyVerif.Primers PolyVerif.Transform
@@ -89,6 +103,9 @@ def formulaOk (b : List Spec.Base) (c na mg : Float) (r : Reply) : Bool :=
   | some (t, h, s) =>
     closeAbs h (Spec.NN.dHF b) tolAbs && closeAbs s (Spec.NN.dSF b na mg) tolAbs
       && closeRel t (Spec.NN.tmF b c na mg) tolRel
+      -- the regime on the reported values (length ≥ 2): negative enthalpy, negative denominator
+      && (b.length < 2 ||
+          (h < 0 && s + 1.9872 * Float.log (c / Float.ofInt (Spec.NN.symmetryFactor b)) < 0))
   | none => false
 
 /-- the ranges the property quantifies over -/
@@ -123,13 +140,39 @@ def bad (why : String) : Verdict := { corr := false, judge := none, cls := "bad-
 
 def getAt {α : Type} (l : List α) (i : Nat) : Option α := l[i]?
 
-/-- strictly increasing Tm between two grid points whose coordinate increases -/
-def monoPair (x x' : Float) (r r' : Reply) : Bool :=
-  if x < x' then
-    match r, r' with
-    | some (t, _, _), some (t', _, _) => t < t'
-    | _, _ => false
-  else true
+/-- relative resolution above which a strict increase is demanded of the binary64 results -/
+def resolution : Float := 1e-9
+
+abbrev Cond := Float × Float × Float     -- (oligo, Na, Mg)
+
+def saltOf (p : Cond) : Float := p.2.1 + 140 * p.2.2
+
+def condLe (p q : Cond) : Bool := p.1 ≤ q.1 && p.2.1 ≤ q.2.1 && p.2.2 ≤ q.2.2
+
+def condEq (p q : Cond) : Bool := p.1 == q.1 && p.2.1 == q.2.1 && p.2.2 == q.2.2
+
+/-- separation of two ordered conditions: relative change of the two log arguments -/
+def sepOf (p q : Cond) : Float := max ((q.1 - p.1) / p.1) ((saltOf q - saltOf p) / saltOf p)
+
+/-- verdict on one pair with `p ≤ q`, `p ≠ q`: (pass, tie observed, separation) -/
+def monoUp (p q : Cond) (r r' : Reply) : Bool × Bool × Float :=
+  let sp := sepOf p q
+  match r, r' with
+  | some (t, _, _), some (t', _, _) =>
+    (if sp ≥ resolution then t < t' else t ≤ t', t == t', sp)
+  | _, _ => (false, false, sp)
+
+/-- monotonicity verdict on an arbitrary pair of conditions: `none` when they are not ordered
+(or equal), else (pass, tie, separation) -/
+def monoPair (p q : Cond) (r r' : Reply) : Option (Bool × Bool × Float) :=
+  if condEq p q then none
+  else if condLe p q then some (monoUp p q r r')
+  else if condLe q p then some (monoUp q p r' r)
+  else none
+
+def sepClass (sp : Float) : String :=
+  if sp < 1e-12 then "sep<1e-12" else if sp < 1e-9 then "sep<1e-9" else if sp < 1e-6 then "sep<1e-6"
+  else if sp < 5e-2 then "sep<5e-2" else "sep>=5e-2"
 
 def judgePt (s : String) (c na mg c2 na2 mg2 : Float) (out : List String) : Verdict :=
   let cs := s.toList
@@ -155,11 +198,19 @@ def judgePt (s : String) (c na mg c2 na2 mg2 : Float) (out : List String) : Verd
             | _, _ => false
           (fa, caseInd, concInd)
         | _ => (false, false, false)
-      let pass := j.1 && j.2.1 && j.2.2
+      -- the two conditions, when ordered, must give ordered temperatures (weak always, strict above the resolution)
+      let mono := if b.length < 2 then none else match rs with
+        | [r1, _, _, r4] => monoPair (c, na, mg) (c2, na2, mg2) r1 r4
+        | _ => none
+      let monoOk := match mono with | some (ok, _, _) => ok | none => true
+      let monoTag := match mono with
+        | some (_, tie, sp) => "/ordered-" ++ sepClass sp ++ (if tie then "-tie" else "")
+        | none => "/unordered"
+      let pass := j.1 && j.2.1 && j.2.2 && monoOk
       let why := (if j.1 then "" else "formula ") ++ (if j.2.1 then "" else "case-dependence ") ++
-        (if j.2.2 then "" else "dH-depends-on-concentration ")
+        (if j.2.2 then "" else "dH-depends-on-concentration ") ++ (if monoOk then "" else "Tm-not-monotone ")
       { corr, judge := if inDom then some pass else none,
-        cls := (if b.length < 2 then "triv:" else "") ++ "pt/" ++ seqClass b ++ (if exact then "/bits" else "/tol"),
+        cls := (if b.length < 2 then "triv:" else "") ++ "pt/" ++ seqClass b ++ monoTag ++ (if exact then "/bits" else "/tol"),
         detail := if corr && pass then "" else
           why ++ "model: " ++ "; ".intercalate (model.map showReply) ++ " spec: Tm=" ++
             toString (Spec.NN.tmF b c na mg) ++ " dH=" ++ toString (Spec.NN.dHF b) ++ " dS=" ++ toString (Spec.NN.dSF b na mg) }
@@ -209,16 +260,24 @@ def judgeGrid (s : String) (cl nal mgl : List Float) (out : List String) : Verdi
       let ca := cl.toArray
       let naa := nal.toArray
       let mga := mgl.toArray
-      let mono := b.length < 2 || (okLen &&
-        (idx cl.length).all fun i => (idx nN).all fun j => (idx nM).all fun k =>
-          (i + 1 ≥ cl.length || monoPair (ca[i]?.getD 0) (ca[i+1]?.getD 0) (pick i j k) (pick (i+1) j k)) &&
-          (j + 1 ≥ nN || monoPair (naa[j]?.getD 0) (naa[j+1]?.getD 0) (pick i j k) (pick i (j+1) k)) &&
-          (k + 1 ≥ nM || monoPair (mga[k]?.getD 0) (mga[k+1]?.getD 0) (pick i j k) (pick i j (k+1))))
+      let cond (i j k : Nat) : Cond := (ca[i]?.getD 0, naa[j]?.getD 0, mga[k]?.getD 0)
+      -- every pair of axis-adjacent grid points: weak monotonicity always, strict above the resolution
+      let pairs : List (Bool × Bool × Float) :=
+        if b.length < 2 || !okLen then [] else
+        (idx cl.length).flatMap fun i => (idx nN).flatMap fun j => (idx nM).flatMap fun k =>
+          ((if i + 1 < cl.length then [monoPair (cond i j k) (cond (i+1) j k) (pick i j k) (pick (i+1) j k)] else []) ++
+           (if j + 1 < nN then [monoPair (cond i j k) (cond i (j+1) k) (pick i j k) (pick i (j+1) k)] else []) ++
+           (if k + 1 < nM then [monoPair (cond i j k) (cond i j (k+1)) (pick i j k) (pick i j (k+1))] else [])).filterMap id
+      let mono := (b.length < 2 || okLen) && pairs.all (·.1)
+      let anyTie := pairs.any (·.2.1)
+      let minSep := pairs.foldl (fun m p => if p.2.2 < m then p.2.2 else m) 1e300
+      let sepTag := if pairs.isEmpty then "" else "/" ++ sepClass minSep ++ (if anyTie then "-tie" else "")
       let pass := formula && dHconst && dSconst && mono
       let why := (if formula then "" else "formula ") ++ (if dHconst then "" else "dH-depends-on-concentration ") ++
-        (if dSconst then "" else "dS-depends-on-oligo-concentration ") ++ (if mono then "" else "not-strictly-monotone ")
+        (if dSconst then "" else "dS-depends-on-oligo-concentration ") ++
+        (if mono then "" else "Tm-not-monotone(decrease, or tie at separation>=1e-9) ")
       { corr, judge := if inDom then some pass else none,
-        cls := (if b.length < 2 || points.length < 2 then "triv:" else "") ++ tag ++ seqClass b ++ (if exact then "/bits" else "/tol"),
+        cls := (if b.length < 2 || points.length < 2 then "triv:" else "") ++ tag ++ seqClass b ++ sepTag ++ (if exact then "/bits" else "/tol"),
         detail := if corr && pass then "" else why ++ "model: " ++ "; ".intercalate (model.map showReply) }
     | none =>
       { corr, judge := none, cls := tag ++ "non-acgt",
